@@ -23,6 +23,9 @@ type ClEntry struct {
 	Version WellFormed        `json:"version"`
 	Dists   []string          `json:"dists"`
 	OptKeys []string          `json:"optKeys"`
+	// OptStyle: how the options are laid out (0: "k=v, k=v"): 1 "k=v,k=v"; 2 "k=v,  k=v"; 3 "k=v , k=v";
+	// 4 a tab behind the comma; 5 "k= v" (dpkg reads the value with \s* in front); 6 blanks behind the last
+	OptStyle int `json:"optStyle,omitempty"`
 	Opts    map[string]string `json:"opts"`
 	Body    string            `json:"body"` // exact bytes between header line and trailer line
 	Who     string            `json:"who"`
@@ -65,10 +68,18 @@ func clWhen(e ClEntry) time.Time {
 
 func renderClEntry(e ClEntry) (header, body, trailer string) {
 	opts := []string{}
-	for _, k := range e.OptKeys {
-		opts = append(opts, k+"="+e.Opts[k])
+	eq := "="
+	if e.OptStyle == 5 {
+		eq = "= "
 	}
-	header = fmt.Sprintf("%s (%s) %s; %s\n", e.Source, e.Version.canonical(), strings.Join(e.Dists, " "), strings.Join(opts, ", "))
+	for _, k := range e.OptKeys {
+		opts = append(opts, k+eq+e.Opts[k])
+	}
+	sep := []string{", ", ",", ",  ", " , ", ",\t", ", ", ", "}[e.OptStyle%7]
+	header = fmt.Sprintf("%s (%s) %s; %s\n", e.Source, e.Version.canonical(), strings.Join(e.Dists, " "), strings.Join(opts, sep))
+	if e.OptStyle == 6 {
+		header = strings.TrimSuffix(header, "\n") + "  \n"
+	}
 	if len(opts) == 0 {
 		header = fmt.Sprintf("%s (%s) %s;\n", e.Source, e.Version.canonical(), strings.Join(e.Dists, " "))
 	}
@@ -122,6 +133,10 @@ func genClEntry(t *rapid.T, first bool) ClEntry {
 		}
 		e.OptKeys = append(e.OptKeys, kv[0])
 		e.Opts[kv[0]] = kv[1]
+	}
+	if len(e.OptKeys) > 0 && rapid.IntRange(0, 2).Draw(t, "optStyleOn") == 0 {
+		// dpkg splits the items at /\s*,\s*/ and reads each as key=\s*value
+		e.OptStyle = rapid.IntRange(1, 6).Draw(t, "optStyle")
 	}
 	var body strings.Builder
 	body.WriteString(strings.Repeat("\n", rapid.SampledFrom([]int{1, 1, 1, 0, 2}).Draw(t, "blankAfterHeader")))
@@ -240,7 +255,7 @@ func entriesMatch(got changelog.ChangelogEntries, want []ClEntry) error {
 
 var specC17Model = Register(&Spec[ClDoc]{
 	Prop: "C17", Name: "model",
-	Rule: "changelogs rendered from an entry-list model: 1..6 entries; source [a-z0-9][a-z0-9+.-]+, Policy-grammar version, 1..3 distributions, 0..3 key=value options, body of blank lines after the header, '  * item', deeper continuation, '  [ Name ]', blank lines, lines of blanks only, lines ending in blanks or a tab, and lines containing ' -- ', ';', '(' in the middle, blank lines before the trailer; maintainer 'Name <mail>'; timestamp from a generated instant and zone offset (-12:00..+14:00 incl. half/quarter hours and +00:01) rendered like date -R, or with the day's leading zero left out or replaced by a blank (Policy allows a one-digit day); 0..3 blank lines between entries, in 1/6 of the cases carrying blanks or a tab (dpkg reads ^\\s*$ as blank) or being '#', '/* */' or '$Keyword: $' lines, which the format says are ignored; final newline present or absent; trailing blank lines, in a quarter of the cases followed by the two-line '# Older entries have been removed ...' footer of a trimmed changelog. Oracle: changelog.Parse returns one entry per block in order with Source, Version (parts), Target (distributions joined by one blank), Arguments, Changelog == exact bytes between header and trailer line, ChangedBy, When equal as instant AND zone offset; ParseOne returns the first; parsing the same text again right after three failing parses (document cut inside a body, trailer without date) gives the same entries; when the source FAILS (an error other than io.EOF) right behind a complete entry that is not the last, Parse returns an error - not the entries so far. Non-trivial: >= 2 entries, >= 2 options, or no final newline; distinct by text.",
+	Rule: "changelogs rendered from an entry-list model: 1..6 entries; source [a-z0-9][a-z0-9+.-]+, Policy-grammar version, 1..3 distributions, 0..3 key=value options (joined by ', ' - in a third of the headers by ',', ',  ', ' , ', a comma and a tab, with a blank behind '=' or blanks at the end of the line: dpkg splits at /\\s*,\\s*/ and reads key=\\s*value), body of blank lines after the header, '  * item', deeper continuation, '  [ Name ]', blank lines, lines of blanks only, lines ending in blanks or a tab, and lines containing ' -- ', ';', '(' in the middle, blank lines before the trailer; maintainer 'Name <mail>'; timestamp from a generated instant and zone offset (-12:00..+14:00 incl. half/quarter hours and +00:01) rendered like date -R, or with the day's leading zero left out or replaced by a blank (Policy allows a one-digit day); 0..3 blank lines between entries, in 1/6 of the cases carrying blanks or a tab (dpkg reads ^\\s*$ as blank) or being '#', '/* */' or '$Keyword: $' lines, which the format says are ignored; final newline present or absent; trailing blank lines, in a quarter of the cases followed by the two-line '# Older entries have been removed ...' footer of a trimmed changelog. Oracle: changelog.Parse returns one entry per block in order with Source, Version (parts), Target (distributions joined by one blank), Arguments, Changelog == exact bytes between header and trailer line, ChangedBy, When equal as instant AND zone offset; ParseOne returns the first; parsing the same text again right after three failing parses (document cut inside a body, trailer without date) gives the same entries; when the source FAILS (an error other than io.EOF) right behind a complete entry that is not the last, Parse returns an error - not the entries so far. Non-trivial: >= 2 entries, >= 2 options, or no final newline; distinct by text.",
 	Check: func(d ClDoc, r *Recorder) error {
 		text := renderClDoc(d)
 		nt := len(d.Entries) >= 2 || !d.FinalNewline
